@@ -301,8 +301,10 @@ def State.report (s : State) (now evwm : Nat) : State × Option Nat :=
       ({ s with subs := swapRemove s.subs i, reporting := some sub, ctxs := s.ctxs ++ [ctx] },
         some sub.id)
 
-/-- how a `ReportContext` ends: `set_keep()` then drop, `set_keep_retry()` then drop, or a plain drop -/
-inductive Fin | keep | retry | drop
+/-- how a `ReportContext` ends: `set_keep()` then drop, `set_keep_retry()` then drop, a plain drop, or
+`set_keep_unsent()` then drop (the report turned out empty and was not sent: none of the pending
+changes concerns what the subscription selects — which attributes it selects is outside the model) -/
+inductive Fin | keep | retry | drop | unsent
 deriving Repr, DecidableEq, Inhabited
 
 /-- `ReportContext::set_keep_retry` -/
@@ -313,6 +315,11 @@ def Ctx.setKeepRetry (hz : Nat) (c : Ctx) : Ctx :=
   { c with nextAttr := c.sub.seenAttr, nextEv := c.sub.seenEv, nextReportedAt := c.sub.reportedAt,
            nextFail := failc,
            nextRetryAt := match checkedAdd now (backoff * hz) with | some t => t | none => IMAX }
+
+/-- `ReportContext::set_keep_unsent`: the watermarks advance, the last-success instant and the retry
+state stay -/
+def Ctx.setKeepUnsent (c : Ctx) : Ctx :=
+  { c with nextReportedAt := c.sub.reportedAt, nextRetryAt := c.sub.retryAt, nextFail := c.sub.fail }
 
 /-- the field commits at the top of `Subscriptions::report_complete` -/
 def Ctx.commit (c : Ctx) : Sub :=
@@ -347,6 +354,7 @@ def State.fin (s : State) (id : Nat) (f : Fin) : State × Bool :=
     let rest := s.ctxs.eraseP (fun c => c.sub.id == id)
     let c' := match f with
       | .retry => c.setKeepRetry s.hz
+      | .unsent => c.setKeepUnsent
       | _ => c
     let keep := match f with
       | .drop => false
